@@ -3,11 +3,12 @@ from __future__ import annotations
 
 import ast
 import itertools
+import re
 
 from sa import pat, source
 from sa.cfg import cfg_of, guards
 from sa.source import AnchorMissing, arg_of, bind_args, dotted, is_self_attr, last_attr, local_defs, params_of, short, u, walk_body
-from sa.sym import UnknownAtom, atoms_of, bool_eval, comparison, parse_expr, rat_equal
+from sa.sym import UnknownAtom, atoms_of, bool_eval, comparison
 from sa.tables import Unsupported, decide
 
 _R = "esrally/reporter.py"
@@ -90,6 +91,206 @@ class Roles:
         return d
 
 
+class _Sym:
+    """an attribute of an imported module the analysed code refers to (console.format.green): a symbol; applying it to a text yields a _Styled value."""
+
+    def __init__(self, name):
+        self.name = name
+
+    def __repr__(self):
+        return self.name
+
+
+class _Styled:
+    """a colour function of the console module applied to a text."""
+
+    def __init__(self, colour, text):
+        self.colour = colour
+        self.text = text
+
+    def __repr__(self):
+        return f"{self.colour}({self.text!r})"
+
+
+class _CaseFailed(Exception):
+    pass
+
+
+def _own_stmts(f):
+    """statements of a (nested) function without docstring and logging statements."""
+    from sa.classes import is_logging_stmt
+
+    return [s_ for s_ in f.body if not is_logging_stmt(s_) and not (isinstance(s_, ast.Expr) and isinstance(s_.value, ast.Constant))]
+
+
+class _Interp:
+    """Evaluation of one small pure function of the analysed source on representative VALUES: control flow by tables.decide, expressions by minieval.ev.
+    Local extension of minieval (which interprets no calls of user code): a call of a nested helper function / lambda of the analysed function is interpreted the
+    same way (closure = the environment at the call), a callable supplied by the rule is applied, a dotted attribute of an imported module is a symbol (_Sym) whose
+    call yields _Styled(symbol, text); conditional expressions and and/or are evaluated lazily. No function of the repository is executed."""
+
+    def __init__(self):
+        self.trace = []  # (helper node, args, result) of every interpreted nested helper call
+
+    def ev(self, e, env):
+        from sa import minieval
+
+        interp = self
+
+        class R(ast.NodeTransformer):
+            def visit_Attribute(self, n):
+                d = dotted(n)
+                if d is not None and d.split(".")[0] not in env:
+                    return ast.Constant(value=_Sym(d))
+                return self.generic_visit(n)
+
+            def visit_Lambda(self, n):
+                return ast.Constant(value=n)
+
+            def visit_IfExp(self, n):
+                return self.visit(n.body if interp.ev(n.test, env) else n.orelse)
+
+            def visit_BoolOp(self, n):
+                v = None
+                for x in n.values:
+                    v = interp.ev(x, env)
+                    if bool(v) != isinstance(n.op, ast.And):
+                        break
+                return ast.Constant(value=v)
+
+            def visit_Call(self, n):
+                n = self.generic_visit(n)
+                f = n.func
+                fv = f.value if isinstance(f, ast.Constant) else (env.get(f.id) if isinstance(f, ast.Name) else None)
+                if isinstance(fv, (_Sym, ast.FunctionDef, ast.Lambda)) or callable(fv):
+                    if any(isinstance(a, ast.Starred) for a in n.args) or any(k.arg is None for k in n.keywords):
+                        raise minieval.CannotEval(f"call {u(n)[:60]}: star arguments")
+                    return ast.Constant(value=interp.call(fv, [minieval.ev(a, env) for a in n.args], {k.arg: minieval.ev(k.value, env) for k in n.keywords}, env))
+                return n
+
+        return minieval.ev(R().visit(source.clone(e)), env)
+
+    def call(self, fv, args, kw, env):
+        from sa import minieval
+
+        if isinstance(fv, _Sym):
+            if len(args) != 1 or kw:
+                raise minieval.CannotEval(f"{fv.name} applied to {len(args)} argument(s)")
+            return _Styled(fv.name, args[0])
+        if isinstance(fv, (ast.FunctionDef, ast.Lambda)):
+            a = fv.args
+            names = [x.arg for x in a.args]
+            if a.vararg or a.kwarg or a.kwonlyargs or a.posonlyargs or len(args) > len(names):
+                raise minieval.CannotEval(f"signature of {getattr(fv, 'name', 'lambda')}")
+            bound = dict(zip(names, args))
+            for k_, v_ in kw.items():
+                if k_ not in names or k_ in bound:
+                    raise minieval.CannotEval(f"argument {k_} of {getattr(fv, 'name', 'lambda')}")
+                bound[k_] = v_
+            defaults = dict(zip(names[len(names) - len(a.defaults):], a.defaults))
+            for nm in names:
+                if nm not in bound:
+                    if nm not in defaults:
+                        raise minieval.CannotEval(f"argument {nm} of {getattr(fv, 'name', 'lambda')} not supplied")
+                    bound[nm] = self.ev(defaults[nm], env)
+            local = dict(env)
+            local.update(bound)
+            r = self.ev(fv.body, local) if isinstance(fv, ast.Lambda) else self.run(_own_stmts(fv), local)
+            if isinstance(fv, ast.FunctionDef):
+                self.trace.append((fv, tuple(args), r))
+            return r
+        try:
+            return fv(*args, **kw)
+        except (TypeError, ValueError, ArithmeticError) as x:
+            raise minieval.CannotEval(f"supplied callable: {type(x).__name__}")
+
+    def _bind(self, t, v, env):
+        from sa import minieval
+
+        if isinstance(t, ast.Name):
+            env[t.id] = v
+        elif isinstance(t, (ast.Tuple, ast.List)) and isinstance(v, (tuple, list)) and len(v) == len(t.elts):
+            for t_, v_ in zip(t.elts, v):
+                self._bind(t_, v_, env)
+        else:
+            raise minieval.CannotEval(f"assignment target {u(t)[:40]}")
+
+    def run(self, stmts, env):
+        def hook(s_, env_, b):
+            if isinstance(s_, ast.FunctionDef):
+                env_[s_.name] = s_
+                return "skip"
+            if isinstance(s_, ast.Assign):
+                v = self.ev(s_.value, env_)
+                for t in s_.targets:
+                    self._bind(t, v, env_)
+                return "skip"
+            if isinstance(s_, ast.AugAssign) and isinstance(s_.target, ast.Name):
+                env_[s_.target.id] = self.ev(ast.BinOp(left=ast.Name(id=s_.target.id, ctx=ast.Load()), op=s_.op, right=s_.value), env_)
+                return "skip"
+            return None
+
+        out = decide(stmts, lambda n, env_: bool(self.ev(n, env_)), env, on_stmt=hook)
+        if out.kind == "return":
+            return None if out.value is None else self.ev(out.value, env)
+        if out.kind == "fallthrough":
+            return None
+        raise Unsupported(out.text()[:60])
+
+
+class _Cell:
+    """one printed difference cell: colour function (None = bare text) and the text split into '+' prefix, '-' sign, digits, decimals, suffix."""
+
+    _NUM = re.compile(r"^(\+?)(-?)(\d+(?:\.(\d+))?|inf|nan)(.*)$", re.S)
+
+    def __init__(self, colour=None, text=None, trace=(), crash=None):
+        self.colour, self.text, self.trace, self.crash = colour, text, list(trace), crash
+        m = self._NUM.match(text) if isinstance(text, str) else None
+        self.plus = m.group(1) if m else None
+        self.minus = m.group(2) if m else None
+        self.value = float(m.group(2) + m.group(3)) if m else None
+        self.decimals = len(m.group(4)) if m and m.group(4) is not None else (0 if m else None)
+        self.suffix = m.group(5) if m else None
+
+    @property
+    def sign(self):
+        """+1 / -1 / 0 of the PRINTED value (None when the text is not a number); a text that carries a '+' / '-' although its digits are zero counts as signed."""
+        if self.value is None or self.value != self.value:
+            return None
+        return (self.value > 0) - (self.value < 0)
+
+    def show(self):
+        return f"<{self.crash}>" if self.crash else (f"{self.colour.rsplit('.', 1)[-1]}({self.text!r})" if self.colour else repr(self.text))
+
+
+class _Rec(dict):
+    """a stored per-task result record that has every member EXCEPT the optional ones (`absent`: member paths older result formats do not contain)."""
+
+    def __init__(self, absent, path=(), touched=None):
+        super().__init__()
+        self.absent, self.path, self.touched = absent, path, touched if touched is not None else []
+
+    def _lacks(self, k):
+        if self.path + (k,) in self.absent:
+            self.touched.append(self.path + (k,))
+            return True
+        return False
+
+    def __missing__(self, k):
+        if self._lacks(k):
+            raise KeyError(k)
+        return _Rec(self.absent, self.path + (k,), self.touched)
+
+    def get(self, k, default=None):
+        return default if self._lacks(k) else self[k]
+
+    def __contains__(self, k):
+        return not self._lacks(k)
+
+    def __bool__(self):
+        return True
+
+
 def run(chk):
     repo = chk.repo
     rp = repo.module(_R)
@@ -97,9 +298,12 @@ def run(chk):
     chk.explanation = (
         "Decides the comparison report by tables: every comparison-line construction passes a constant direction flag that is increase-is-improvement iff the label names a throughput; "
         "role dataflow (through locals, loops, getattr, helper methods and nested helpers) shows the baseline operand depends only on the baseline race and the contender operand only on "
-        "the contender race; _diff abstractly interpreted over {plain, increase-good, decrease-good} x {d >= thr, d <= -thr, between} with d == contender - baseline (absolute and relative, "
-        "zero-safe division), mirrored thresholds 10^-precision, '+' on positive values; plain flag read only for colour selection; same formatter for file (plain) and console (rich); "
-        "a line only when both values are not None; scalar metric guards use `is None`, not truthiness."
+        "the contender race; the statements of _diff evaluated on representative values (baseline / contender pairs incl. zero and negative ones, both modes, both directions, rich and plain; "
+        "d in {2t, t, 0.6t, 0.4t, 0, -0.4t, -0.6t, -t, -2t} with t the smallest printable step): shown value == contender - baseline resp. (c - b) / |b| * 100 (zero-safe), a cell is signed "
+        "and coloured by direction exactly when its printed value is non-zero, relative and absolute cell agree in sign and colour, swapping flips both, self comparison is an unsigned "
+        "neutral zero, the plain cell is the rich cell's text; plain flag read only for colour selection; same formatter for file (plain) and console (rich); "
+        "a line only when both values are not None; scalar metric guards use `is None`, not truthiness; optional members of a stored task result (throughput mean, processing time) are "
+        "read with a default in both races (reads evaluated on a record without them)."
     )
     chk.not_decided = "numeric formatting, tabulate output, the content of the race results themselves."
     CR = rp.cls("ComparisonReporter")
@@ -230,249 +434,201 @@ def run(chk):
     chk.ob("O20.2", "both tables built from (baseline, contender) in that order", ok, mcalls[0] if mcalls else rep, "")
 
     # ---- O20.3 difference and colours ----------------------------------------------------------------------------------------------------------------
-    chk.rule("O20.3", "_diff: d == contender - baseline (absolute: formatter(c - b); relative: (c - b) / b * 100, zero-safe); thresholds +-10^-precision with mirrored comparators; "
-             "colour table plain -> identity x3, increase-good -> (+green, -red), decrease-good -> (+red, -green), between -> neutral; positive values get '+'", 14,
+    chk.rule("O20.3", "_diff decided on VALUES (its own statements evaluated for representative baseline / contender pairs incl. zero and negative ones): d == contender - baseline "
+             "(absolute: formatter(c - b); relative: (c - b) / |b| * 100, zero-safe); a cell is signed ('+' on positive values) and coloured exactly when its PRINTED value is non-zero "
+             "(t = 10^-precision: 0.6t is marked, 0.4t is neutral); colour table plain -> bare text x3, increase-good -> (+green, -red), decrease-good -> (+red, -green), prints as zero -> neutral; "
+             "the relative cell carries the sign and colour of the absolute cell; swapping the races flips both; self comparison prints an unsigned zero", 14,
              "self-comparison not neutral, swapping the races does not flip sign/colour, or improvement/regression colours exchanged")
     dp = params_of(diff)
     if len(dp) < 6:
         raise AnchorMissing("_diff(self, baseline, contender, treat_increase_as_improvement, formatter, as_percentage)")
     bpar, cpar, flagp, fmtp, pctp = dp[1], dp[2], dp[3], dp[4], dp[5]
     from sa import minieval
-    from sa.classes import is_logging_stmt
 
-    def own_stmts(f):
-        """statements of a (nested) function without docstring and logging statements."""
-        return [s_ for s_ in f.body if not is_logging_stmt(s_) and not (isinstance(s_, ast.Expr) and isinstance(s_.value, ast.Constant))]
+    own_stmts = _own_stmts
 
-    # colour selection: the top-level statement of _diff that branches on self.plain (attribute anchor; the colour locals are known by role only:
-    # the local called in the outcome for d > thr / d < -thr / between — see the value-evaluated decision below)
+    # site anchors only (the decisions below are evaluated on values, never read off these statements): the top-level statement of _diff that branches on self.plain and
+    # the last top-level decision that returns
     sel_if = [n for n in diff.body if isinstance(n, ast.If) and any(is_self_attr(x, "plain") for m in ast.walk(n) if isinstance(m, ast.If) for x in ast.walk(m.test))]
-    if not sel_if:
-        raise AnchorMissing("colour selection in _diff")
-    want_tab = {(True, True): ("identity", "identity", "identity"), (True, False): ("identity", "identity", "identity"),
-                (False, True): ("console.format.green", "console.format.red", "console.format.neutral"), (False, False): ("console.format.red", "console.format.green", "console.format.neutral")}
+    sel_node = sel_if[0] if sel_if else diff
+    final = [n for n in diff.body if isinstance(n, ast.If) and n not in sel_if and any(isinstance(x, ast.Return) for x in ast.walk(n))]
+    fnode = final[-1] if final else diff
     idf = [n for n in diff.body if isinstance(n, ast.FunctionDef) and n.name == "identity"]
     ok = False
     if idf and len(params_of(idf[0])) == 1:
         ib = own_stmts(idf[0])
         ok = len(ib) == 1 and isinstance(ib[0], ast.Return) and isinstance(ib[0].value, ast.Name) and ib[0].value.id == params_of(idf[0])[0]
     chk.ob("O20.3", "identity returns its argument", ok, idf[0] if idf else diff, "")
-    # difference formulas: the absolute/relative branch is the top-level statement testing the as_percentage parameter; the difference is the one local bound
-    # there whose value depends on the operands (role, not name); which arm is which is decided by evaluating the test, not by arm position
-    dif_if = [n for n in diff.body if isinstance(n, ast.If) and n not in sel_if and any(isinstance(x, ast.Name) and x.id == pctp for x in ast.walk(n.test))]
-    if not dif_if:
-        raise AnchorMissing("absolute/relative branch in _diff")
-    D = dif_if[0]
 
-    def mentions_operands(e):
-        return any(isinstance(x, ast.Name) and x.id in (bpar, cpar) for x in ast.walk(e))
+    G, S, N = "console.format.green", "console.format.red", "console.format.neutral"
+    cells = {}
 
-    def difference_in(pct):
-        """(value expression, assignment node) of the difference in the arm taken for as_percentage == pct."""
-        try:
-            o_ = decide([D], lambda n, env: (pct if isinstance(n, ast.Name) and n.id == pctp else None), {})
-        except (Unsupported, UnknownAtom):
-            return None, None
-        cand = [(k_, v_) for k_, v_ in getattr(o_, "bindings", {}).items() if v_ is not None and mentions_operands(v_)]
-        if o_.kind != "fallthrough" or len(cand) != 1:
-            return None, None
-        asg = [n for n in ast.walk(D) if isinstance(n, ast.Assign) and len(n.targets) == 1 and isinstance(n.targets[0], ast.Name) and n.targets[0].id == cand[0][0] and
-               (n.value is cand[0][1] or u(n.value) == u(cand[0][1]))]
-        return cand[0][1], (asg[0] if asg else D)
-
-    rel_v, rel_n = difference_in(True)
-    ab_v, ab_n = difference_in(False)
-    sd = [n for n in diff.body if isinstance(n, ast.FunctionDef) and n.name == "_safe_divide"]
-    ok = False
-    if rel_v is not None and sd:
-        v = rel_v
-        # _safe_divide(c - b, b) * 100.0
-        if isinstance(v, ast.BinOp) and isinstance(v.op, ast.Mult):
-            callp, factor = (v.left, v.right) if isinstance(v.left, ast.Call) else (v.right, v.left)
-            ok = isinstance(callp, ast.Call) and u(callp.func) == "_safe_divide" and len(callp.args) == 2 and not callp.keywords and rat_equal(callp.args[0], parse_expr(f"{cpar} - {bpar}")) and \
-                u(callp.args[1]) == bpar and isinstance(factor, ast.Constant) and factor.value == 100
-    chk.ob("O20.3", "relative difference == (contender - baseline) / baseline * 100", ok, rel_n if rel_n is not None else D, short(rel_n, 80) if rel_n is not None else "")
-    ok = False
-    sd_detail = ""
-    if sd and len(params_of(sd[0])) == 2:
-        # evaluated on representative values (quotient when the divisor is not 0, 0 when it is): polarity / orientation / shape (conditional expression or if-chain) are irrelevant
-        n_, d_ = params_of(sd[0])
-        try:
-            got = []
-            for nv_, dv_ in ((6, 3), (-6, 3), (1, 4), (0, 5), (6, -3), (6, 0), (0, 0), (-2, 0)):
-                env_ = {n_: nv_, d_: dv_}
-                o_ = decide(own_stmts(sd[0]), lambda n, env: bool(minieval.ev(n, env)), env_)
-                got.append(minieval.ev(o_.value, env_) if o_.kind == "return" and o_.value is not None else None)
-            want_ = [2, -2, 0.25, 0, -2, 0, 0, 0]
-            ok = all(g_ is not None and not isinstance(g_, bool) and g_ == w_ for g_, w_ in zip(got, want_))
-            sd_detail = "" if ok else f"(6,3) (-6,3) (1,4) (0,5) (6,-3) (6,0) (0,0) (-2,0) -> {got}"
-        except (Unsupported, UnknownAtom, minieval.CannotEval) as e:
-            sd_detail = f"cannot evaluate: {e}"
-    chk.ob("O20.3", "division is zero-safe (0 when the baseline is 0)", ok, sd[0] if sd else diff, sd_detail)
-    ok = ab_v is not None and isinstance(ab_v, ast.Call) and u(ab_v.func) == fmtp and len(ab_v.args) == 1 and not ab_v.keywords and rat_equal(ab_v.args[0], parse_expr(f"{cpar} - {bpar}"))
-    chk.ob("O20.3", "absolute difference == formatter(contender - baseline)", ok, ab_n if ab_n is not None else D, short(ab_n, 80) if ab_n is not None else "")
-    # final decision evaluated over the five positions of d relative to the threshold t = 10^-precision: d in {2t, t, 0, -t, -2t}, in both modes.
-    # Tests are evaluated on values (the difference operand is the one whose definition depends on the operands), so arm order, comparison orientation
-    # and local names are irrelevant.
-    sel_i = diff.body.index(sel_if[0])
-    tail = [s_ for s_ in diff.body[sel_i + 1:] if not isinstance(s_, ast.FunctionDef) and not is_logging_stmt(s_)]
-    inputs = {bpar, cpar}
-
-    def depends_on_inputs(e, b, depth=0):
-        for n in ast.walk(e):
-            if isinstance(n, ast.Name):
-                if n.id in inputs:
-                    return True
-                if depth < 6 and b.get(n.id) is not None and depends_on_inputs(b[n.id], b, depth + 1):
-                    return True
-        return False
-
-    def value_of(e, b, depth=0):
-        env = {}
-        for n in ast.walk(e):
-            if isinstance(n, ast.Name) and n.id not in env and b.get(n.id) is not None and depth < 6:
-                env[n.id] = value_of(b[n.id], b, depth + 1)
-        return minieval.ev(e, env)
-
-    def flat_fstring(e, b, depth=0):
-        """[('lit', text) | ('val', expr)] of an f-string with local names bound to f-strings expanded."""
-        out = []
-        if isinstance(e, ast.JoinedStr):
-            for v in e.values:
-                if isinstance(v, ast.Constant):
-                    out.append(("lit", str(v.value)))
-                elif isinstance(v, ast.FormattedValue):
-                    if isinstance(v.value, ast.Name) and isinstance(b.get(v.value.id), ast.JoinedStr) and v.format_spec is None and depth < 4:
-                        out += flat_fstring(b[v.value.id], b, depth + 1)
-                    else:
-                        out.append(("val", v))
-        elif isinstance(e, ast.Name) and isinstance(b.get(e.id), ast.JoinedStr) and depth < 4:
-            out += flat_fstring(b[e.id], b, depth + 1)
-        else:
-            out.append(("val", e))
-        return out
-
-    thr_vals = {}
-    pre = [s_ for s_ in diff.body[:sel_i] if isinstance(s_, ast.Assign)]
-
-    class _CaseFailed(Exception):
-        pass
-
-    def run_case(plain, inc, pct, k):
-        """outcome of _diff for (self.plain, direction flag, as_percentage) and d == k * thr: (colour function, literal prefix, shows d, format spec, bindings)."""
-        cur = {}
-
-        def hook(s_, env, b):
-            cur["b"] = b
-            # `a = b = e` and `a, b = e1, e2` bind like the separate single assignments
-            if isinstance(s_, ast.Assign) and len(s_.targets) > 1 and all(isinstance(t_, ast.Name) for t_ in s_.targets):
-                v_ = source.inline_node(s_.value, {k_: x_ for k_, x_ in b.items() if x_ is not None}, depth=9)
-                for t_ in s_.targets:
-                    b[t_.id] = v_
-                return "skip"
-            if isinstance(s_, ast.Assign) and len(s_.targets) == 1 and isinstance(s_.targets[0], ast.Tuple) and isinstance(s_.value, ast.Tuple) and len(s_.targets[0].elts) == len(s_.value.elts) and \
-                    all(isinstance(t_, ast.Name) for t_ in s_.targets[0].elts) and not any(isinstance(x, ast.Name) and x.id in {t_.id for t_ in s_.targets[0].elts} for x in ast.walk(s_.value)):
-                vs_ = [source.inline_node(v_, {k_: x_ for k_, x_ in b.items() if x_ is not None}, depth=9) for v_ in s_.value.elts]
-                for t_, v_ in zip(s_.targets[0].elts, vs_):
-                    b[t_.id] = v_
-                return "skip"
-            return None
-
-        def atom(n, env):
-            b = cur.get("b", {})
-            if is_self_attr(n, "plain"):
-                return plain
-            if isinstance(n, ast.Name) and n.id == flagp:
-                return inc
-            if isinstance(n, ast.Name) and n.id == pctp:
-                return pct
-            if isinstance(n, ast.Compare) and len(n.ops) > 1:
-                # chained comparison: the conjunction of its links
-                links = [atom(ast.Compare(left=l_, ops=[o_], comparators=[r_]), env) for l_, o_, r_ in zip([n.left] + n.comparators[:-1], n.ops, n.comparators)]
-                return None if any(x is None for x in links) else all(links)
-            if isinstance(n, ast.Compare) and len(n.ops) == 1:
-                sides = [n.left, n.comparators[0]]
-                dep = [depends_on_inputs(x, b) for x in sides]
-                if dep.count(True) != 1:
-                    return None
-                other = sides[1 - dep.index(True)]
-                t = value_of(other, b)
-                thr_vals[pct] = abs(t)
-                d = k * abs(t)
-                l_, r_ = (d, t) if dep[0] else (t, d)
-                return minieval._CMP[type(n.ops[0])](l_, r_)
-            return None
-
-        try:
-            out = decide(pre + [sel_if[0]] + tail, atom, {}, on_stmt=hook)
-        except (Unsupported, UnknownAtom, minieval.CannotEval) as e:
-            raise _CaseFailed(f"{type(e).__name__}: {e}")
-        if out.kind != "return" or not isinstance(out.value, ast.Call) or len(out.value.args) != 1:
-            raise _CaseFailed(f"outcome for d = {k}t is {out.text()[:60]}, not a call of a colour function")
-        bnd = getattr(out, "bindings", {})
-        fn = out.value.func
-        fn_t = u(bnd[fn.id]) if isinstance(fn, ast.Name) and bnd.get(fn.id) is not None else u(fn)
-        parts = flat_fstring(out.value.args[0], bnd)
-        lead = "".join(t for kind, t in parts[: next((i for i, p_ in enumerate(parts) if p_[0] == "val"), len(parts))])
-        firstval = next((p_[1] for p_ in parts if p_[0] == "val"), None)
-        shows_d = firstval is not None and depends_on_inputs(firstval.value if isinstance(firstval, ast.FormattedValue) else firstval, bnd)
-        spec = ""
-        if isinstance(firstval, ast.FormattedValue) and firstval.format_spec is not None:
+    def cell(plain, inc, pct, b, c, fmt=None):
+        """the cell _diff produces for (self.plain, direction flag, as_percentage, baseline, contender[, formatter — default: _diff's own default]): its statements are
+        evaluated on these values; the operands are bound by parameter POSITION (as _line passes them), the mode and formatter by parameter name."""
+        k_ = (plain, inc, pct, b, c, fmt)
+        if k_ not in cells:
+            it = _Interp()
+            kw = {pctp: pct}
+            if fmt is not None:
+                kw[fmtp] = fmt
+            elif dp.index(fmtp) < len(dp) - len(diff.args.defaults):
+                kw[fmtp] = lambda x: x  # _diff declares no default formatter: the identity is supplied by the rule
             try:
-                spec = minieval.ev(firstval.format_spec, {k_: value_of(v_, bnd) for k_, v_ in bnd.items() if isinstance(v_, ast.Constant)})
-            except minieval.CannotEval:
-                spec = u(firstval.format_spec)
-        return fn_t, lead, shows_d, spec, bnd
+                r = it.call(diff, [minieval.Record(plain=plain), b, c, inc], kw, {})
+            except (Unsupported, UnknownAtom, minieval.CannotEval) as e:
+                if "ZeroDivisionError" not in str(e):
+                    raise _CaseFailed(f"_diff(plain={plain}, {b}, {c}, {inc}, as_percentage={pct}): {type(e).__name__}: {e}")
+                cells[k_] = _Cell(crash="ZeroDivisionError", trace=it.trace)
+                return cells[k_]
+            except (TypeError, ValueError, AttributeError, KeyError, IndexError, ArithmeticError, RecursionError) as e:
+                raise _CaseFailed(f"_diff(plain={plain}, {b}, {c}, {inc}, as_percentage={pct}): {type(e).__name__}: {e}")
+            if isinstance(r, _Styled) and isinstance(r.text, str):
+                cells[k_] = _Cell(r.colour, r.text, it.trace)
+            elif isinstance(r, str):
+                cells[k_] = _Cell(None, r, it.trace)
+            else:
+                raise _CaseFailed(f"_diff(plain={plain}, {b}, {c}, {inc}, as_percentage={pct}) yields {r!r}: neither a text nor a colour function applied to a text")
+        return cells[k_]
 
-    # colour table over (plain, increase-good): the colour function applied for d > thr, d < -thr and in between, read off the evaluated outcomes in both output modes
-    for plain, inc in itertools.product([True, False], repeat=2):
-        try:
-            per_mode = {pct: tuple(run_case(plain, inc, pct, k)[0] for k in (2, -2, 0)) for pct in (False, True)}
-        except _CaseFailed as e:
-            chk.unknown("O20.3", f"colour selection is not a decision over (plain, direction): {e}", sel_if[0])
-            break
-        got3 = per_mode[False] if per_mode[False] != want_tab[(plain, inc)] or per_mode[True] == want_tab[(plain, inc)] else per_mode[True]
-        g_, s_, n_ = got3
-        mode = "plain" if plain else ("increase is improvement" if inc else "decrease is improvement")
-        chk.ob("O20.3", f"colours for {mode}{' (flag ' + str(inc) + ')' if plain else ''}", all(per_mode[pct] == want_tab[(plain, inc)] for pct in per_mode), sel_if[0],
-               f"(+, -, 0) -> ({g_}, {s_}, {n_}); expected {want_tab[(plain, inc)]}", key=f"{_R}:_diff:colours:{plain}|{inc}")
+    def colour_for(sign, inc):
+        return N if sign == 0 else (G if (sign > 0) == inc else S)
 
-    table = {}
-    failed = None
-    for pct in (True, False):
-        for k in (2, 1, 0, -1, -2):
-            try:
-                table[(pct, k)] = run_case(False, True, pct, k)
-            except _CaseFailed as e:
-                failed = str(e)
-                break
-        if failed:
-            break
-    final = [n for n in tail if isinstance(n, ast.If) and any(isinstance(x, ast.Return) for x in ast.walk(n))]
-    fnode = final[-1] if final else diff
-    if failed:
-        chk.unknown("O20.3", f"final colour decision of _diff cannot be evaluated over d in (2t, t, 0, -t, -2t): {failed}", fnode)
-    else:
-        G, S, N = "console.format.green", "console.format.red", "console.format.neutral"  # flag == True (increase is improvement)
+    plain_mismatch = []
+    n_cases = [0]
+
+    def judge(pct, b, c, want, decimals, fmt=None, unsigned_zero=False):
+        """'' when the cell for (b, c) is right in both directions, rich and plain: it shows `want` rounded to the printed decimals; it is coloured by direction and carries
+        its sign ('+' on positive values) iff the printed value is non-zero, neutral and without '+' otherwise; the plain cell is the same text without a colour function."""
+        bad = []
+        for inc in (True, False):
+            r, p = cell(False, inc, pct, b, c, fmt), cell(True, inc, pct, b, c, fmt)
+            n_cases[0] += 1
+            tag = f"({b}, {c}) {'increase' if inc else 'decrease'}-good -> {r.show()}"
+            if r.crash or r.sign is None or r.decimals != decimals:
+                bad.append(f"{tag}: not a number with {decimals} decimals")
+                continue
+            if p.crash or p.colour is not None or p.text != r.text:
+                plain_mismatch.append(f"({b}, {c}, as_percentage={pct}): plain {p.show()} vs rich {r.show()}")
+            shown_want = float(format(want, f".{decimals}f"))
+            if abs(r.value - shown_want) > 10.0 ** -decimals / 1000:
+                bad.append(f"{tag}: shows {r.value}, expected {shown_want}")
+            elif r.colour != colour_for(r.sign, inc):
+                bad.append(f"{tag}: expected {colour_for(r.sign, inc).rsplit('.', 1)[-1]} for a printed value {'> 0' if r.sign > 0 else ('< 0' if r.sign < 0 else 'of zero')}")
+            elif r.plus != ("+" if r.sign > 0 else "") or (r.sign < 0 and r.minus != "-"):
+                bad.append(f"{tag}: sign prefix {r.plus + r.minus!r}")
+            elif unsigned_zero and r.sign == 0 and r.minus:
+                bad.append(f"{tag}: a zero printed with a minus sign")
+        return "; ".join(bad)
+
+    def rel(b, c):
+        return (c - b) / abs(b) * 100.0
+
+    try:
+        # the number of decimals each mode prints (t = 10^-decimals is the smallest printable step), read off one evaluated cell per mode
+        dec = {False: cell(True, True, False, 1.0, 2.0).decimals, True: cell(True, True, True, 100.0, 101.0).decimals}
+        if any(d_ is None or d_ < 1 for d_ in dec.values()):
+            raise _CaseFailed(f"printed decimals cannot be read off the cells {cell(True, True, False, 1.0, 2.0).show()} / {cell(True, True, True, 100.0, 101.0).show()}")
+        # --- difference formulas on values (incl. negative baselines; sign, magnitude, formatter) ---
+        PAIRS = [(10, 5), (-10, -5), (-4000, 1000), (4, 5), (-4, -5), (2, -2), (-3, 7), (2.5, 1.0)]
+        bad = [m_ for b_, c_ in PAIRS for m_ in [judge(True, b_, c_, rel(b_, c_), dec[True])] if m_]
+        asg = [n for n in ast.walk(diff) if isinstance(n, ast.Assign) and any(isinstance(x, (ast.Div, ast.Call)) for x in ast.walk(n.value)) and
+               {bpar, cpar} <= {x.id for x in ast.walk(n.value) if isinstance(x, ast.Name)} and any(isinstance(g_, ast.Name) and g_.id == pctp for t_, _ in guards(n) for g_ in ast.walk(t_))]
+        rel_n = asg[0] if asg else diff
+        chk.ob("O20.3", "relative difference == (contender - baseline) / |baseline| * 100 (value table incl. negative baselines: -10 -> -5 is +50.00%, -4000 -> 1000 is +125.00%, 10 -> 5 is -50.00%)",
+               not bad, rel_n, "; ".join(bad)[:400], key=f"{_R}:ComparisonReporter._diff:relative-value")
+        # zero-safe division, decided on the divisors that actually reach it: baselines 3, -3 and 0
+        bad, reach = [], []
+        for b_, c_ in ((3, 9), (3, -3), (-3, 3), (-3, -9), (0, 0), (0, 5), (0, -5)):
+            for inc in (True, False):
+                r = cell(False, inc, True, b_, c_)
+                reach += [f"{f_.name}{a_} -> {v_}" for f_, a_, v_ in r.trace if f_ is not diff and any(isinstance(x, ast.Div) for x in ast.walk(f_))]
+                if r.crash:
+                    bad.append(f"({b_}, {c_}) -> {r.show()}")
+            if b_ != 0 or c_ == 0:
+                m_ = judge(True, b_, c_, rel(b_, c_) if b_ else 0.0, dec[True])
+                if m_:
+                    bad.append(m_)
+        helpers = [f_ for r in cells.values() for f_, a_, v_ in r.trace if f_ is not diff and any(isinstance(x, ast.Div) for x in ast.walk(f_))]
+        div_n = helpers[0] if helpers else rel_n
+        chk.ob("O20.3", "division is zero-safe (0 when the baseline is 0) and exact for every divisor that reaches it (baselines 3, -3, 0)", not bad, div_n,
+               ("; ".join(bad) + " | reached: " + ", ".join(sorted(set(reach))))[:400] if bad else "", key=f"{_R}:ComparisonReporter._diff:zero-safe-division")
+        double = lambda x: x * 2  # noqa: E731  a linear formatter supplied by the rule (a fixed unit conversion)
+        bad = [m_ for b_, c_ in PAIRS + [(0, 7), (7, 0)] for m_ in [judge(False, b_, c_, (c_ - b_) * 2, dec[False], fmt=double), judge(False, b_, c_, c_ - b_, dec[False])] if m_]
+        asg = [n for n in ast.walk(diff) if isinstance(n, ast.Assign) and any(isinstance(x, ast.Call) and isinstance(x.func, ast.Name) and x.func.id == fmtp for x in ast.walk(n.value))]
+        chk.ob("O20.3", "absolute difference == formatter(contender - baseline) (value table, linear formatter x2 and the default)", not bad, asg[0] if asg else diff, "; ".join(bad)[:400], key=f"{_R}:ComparisonReporter._diff:absolute-value")
+        # the relative cell carries the sign and colour of the absolute cell (baseline != 0)
+        bad = []
+        for b_, c_ in PAIRS:
+            for inc in (True, False):
+                a_, r_ = cell(False, inc, False, b_, c_), cell(False, inc, True, b_, c_)
+                if a_.crash or r_.crash or a_.sign is None or r_.sign is None or (a_.colour, a_.sign, a_.plus) != (r_.colour, r_.sign, r_.plus):
+                    bad.append(f"({b_}, {c_}): Diff {a_.show()} but Diff % {r_.show()}")
+        chk.ob("O20.3", "the relative cell has the sign and the colour of the absolute cell (baselines 10, -10, -4000, 4, -4, 2, -3, 2.5)", not bad, rel_n, "; ".join(bad)[:400],
+               key=f"{_R}:ComparisonReporter._diff:relative-sign-agrees")
+        # swapping baseline and contender flips every sign and colour (both cells, both directions; values != 0)
+        bad = []
+        flip = {G: S, S: G}
+        for b_, c_ in PAIRS:
+            for inc, pct in itertools.product((True, False), repeat=2):
+                x_, y_ = cell(False, inc, pct, b_, c_), cell(False, inc, pct, c_, b_)
+                if x_.crash or y_.crash or not x_.sign or not y_.sign or x_.sign != -y_.sign or flip.get(x_.colour) != y_.colour:
+                    bad.append(f"{'Diff %' if pct else 'Diff'} ({b_}, {c_}) -> {x_.show()}, swapped -> {y_.show()}")
+        chk.ob("O20.3", "swapping baseline and contender flips sign and colour of both cells (value table incl. negative values)", not bad, fnode, "; ".join(bad)[:400],
+               key=f"{_R}:ComparisonReporter._diff:swap-flips")
+        # comparing a value with itself: an unsigned zero in the neutral colour, both cells
+        bad = [m_ for v_ in (3, -3, 0, 2.5, -4000.0, 0.0) for pct in (False, True) for m_ in [judge(pct, v_, v_, 0.0, dec[pct], unsigned_zero=True)] if m_]
+        chk.ob("O20.3", "self comparison prints an unsigned zero in the neutral colour in both cells (values 3, -3, 0, 2.5, -4000.0)", not bad, fnode, "; ".join(bad)[:400],
+               key=f"{_R}:ComparisonReporter._diff:self-neutral")
+        # a change away from a ZERO baseline: the absolute cell is marked, so the relative cell must be marked the same way (not a neutral 0.00%)
+        bad = []
+        for c_ in (50, -50, 0.5):
+            for inc in (True, False):
+                a_, r_ = cell(False, inc, False, 0, c_), cell(False, inc, True, 0, c_)
+                if a_.colour in (G, S) and (r_.crash or r_.colour != a_.colour or (r_.plus, r_.minus) != (a_.plus, a_.minus)):
+                    bad.append(f"(0, {c_}) {'increase' if inc else 'decrease'}-good: Diff {a_.show()} but Diff % {r_.show()}")
+        chk.ob("O20.3", "baseline 0, contender != 0: the relative cell is marked with the sign and colour of the absolute cell (not a neutral 0.00%)", not bad, div_n, "; ".join(bad)[:400],
+               key=f"{_R}:ComparisonReporter._diff:relative-from-zero-baseline")
+
+        # --- colour table over (plain, increase-good): the colour function applied for d = 2t, -2t and 0, read off the evaluated cells in both modes ---
+        def at(pct, k):
+            """(baseline, contender) whose difference in this mode is k * t, t = 10^-decimals of the mode"""
+            base = 100.0 if pct else 1.0
+            return base, base + k * 10.0 ** -dec[pct]
+
+        want_tab = {(True, True): ("identity", "identity", "identity"), (True, False): ("identity", "identity", "identity"), (False, True): (G, S, N), (False, False): (S, G, N)}
+        for plain, inc in itertools.product([True, False], repeat=2):
+            per_mode = {}
+            for pct in (False, True):
+                cs = [cell(plain, inc, pct, *at(pct, k)) for k in (2, -2, 0)]
+                per_mode[pct] = tuple("<" + c_.crash + ">" if c_.crash else (c_.colour or "identity") for c_ in cs)
+            got3 = per_mode[False] if per_mode[False] != want_tab[(plain, inc)] or per_mode[True] == want_tab[(plain, inc)] else per_mode[True]
+            g_, s_, n_ = got3
+            mode = "plain" if plain else ("increase is improvement" if inc else "decrease is improvement")
+            chk.ob("O20.3", f"colours for {mode}{' (flag ' + str(inc) + ')' if plain else ''}", all(per_mode[pct] == want_tab[(plain, inc)] for pct in per_mode), sel_node,
+                   f"(+, -, 0) -> ({g_}, {s_}, {n_}); expected {want_tab[(plain, inc)]}", key=f"{_R}:_diff:colours:{plain}|{inc}")
+        # --- the nine positions of d relative to t = 10^-decimals: 2t, t, 0.6t, 0.4t, 0, -0.4t, -0.6t, -t, -2t, in both modes and both directions: a cell whose printed value is
+        # non-zero is signed and coloured, one that prints as zero is neutral (0.6t prints as 0.00001 / 0.01% and must be marked, 0.4t prints as zero) ---
         for pct in (True, False):
             mode = "relative" if pct else "absolute"
-            bnd = table[(pct, 2)][4]
-            pv = None
-            import math
-            import re as _re
-            if pct in thr_vals and thr_vals[pct] > 0:
-                pv = -math.log10(thr_vals[pct])
-            spec = table[(pct, 0)][3]
-            sm_ = _re.fullmatch(r"\.(\d+)f", spec or "")
-            ok = pv is not None and abs(pv - round(pv)) < 1e-9 and sm_ is not None and int(sm_.group(1)) == round(pv)
-            chk.ob("O20.3", f"threshold == 10^-precision of the printed format ({mode})", ok, fnode, f"threshold {thr_vals.get(pct)}; format spec {spec!r}", key=f"{_R}:_diff:threshold:{mode}")
-            hi, at_hi, mid, at_lo, lo = (table[(pct, k)] for k in (2, 1, 0, -1, -2))
-            chk.ob("O20.3", f"d > thr -> colour for increase, '+' prefix ({mode})", hi[0] == G and hi[1] == "+" and hi[2], fnode, f"{hi[0]}, prefix {hi[1]!r}", key=f"{_R}:_diff:above:{mode}")
-            chk.ob("O20.3", f"d < -thr -> colour for decrease, no prefix ({mode})", lo[0] == S and lo[1] == "" and lo[2], fnode, f"{lo[0]}, prefix {lo[1]!r}", key=f"{_R}:_diff:below:{mode}")
-            chk.ob("O20.3", f"between -> neutral ({mode})", mid[0] == N and mid[1] == "" and mid[2], fnode, f"{mid[0]}, prefix {mid[1]!r}", key=f"{_R}:_diff:between:{mode}")
-            mirrored = (at_hi[0], at_lo[0]) in ((G, S), (N, N)) and (at_hi[1] == "+") == (at_hi[0] == G) and at_lo[1] == ""
-            chk.ob("O20.3", f"mirrored thresholds: d == thr and d == -thr are both coloured or both neutral ({mode})", mirrored, fnode, f"d == thr -> {at_hi[0]}; d == -thr -> {at_lo[0]}",
-                   key=f"{_R}:_diff:mirror:{mode}")
+            t = 10.0 ** -dec[pct]
+
+            def pos(*ks):
+                return "; ".join(m_ for k in ks for m_ in [judge(pct, *at(pct, k), k * t, dec[pct])] if m_)[:400]
+
+            m_ = pos(0.6, 0.4, -0.4, -0.6)
+            chk.ob("O20.3", f"neutral exactly when the difference PRINTS as zero: d = +-0.6t (prints as +-{t:.{dec[pct]}f}) is signed and coloured, d = +-0.4t is neutral ({mode})", not m_, fnode, m_,
+                   key=f"{_R}:_diff:threshold:{mode}")
+            m_ = pos(2)
+            chk.ob("O20.3", f"d = 2t -> colour for increase, '+' prefix ({mode}, both directions)", not m_, fnode, m_, key=f"{_R}:_diff:above:{mode}")
+            m_ = pos(-2)
+            chk.ob("O20.3", f"d = -2t -> colour for decrease, no prefix ({mode}, both directions)", not m_, fnode, m_, key=f"{_R}:_diff:below:{mode}")
+            m_ = pos(0)
+            chk.ob("O20.3", f"d = 0 -> neutral, no prefix ({mode})", not m_, fnode, m_, key=f"{_R}:_diff:between:{mode}")
+            m_ = pos(1, -1)
+            chk.ob("O20.3", f"mirrored: d = t and d = -t (print as +-{t:.{dec[pct]}f}) are both signed and coloured ({mode})", not m_, fnode, m_, key=f"{_R}:_diff:mirror:{mode}")
+    except _CaseFailed as e:
+        chk.unknown("O20.3", f"_diff cannot be evaluated on values: {e}", fnode)
     # _line passes the same operands and flag to both _diff calls, in order
     dcalls = [n for n in walk_body(line) if isinstance(n, ast.Call) and u(n.func) == "self._diff"]
     lp = params_of(line)
@@ -516,6 +672,11 @@ def run(chk):
     reads = [n for n in ast.walk(CR) if is_self_attr(n, "plain") and isinstance(n.ctx, ast.Load)]
     ok = bool(reads) and all(source.enclosing_func(n) is diff for n in reads)
     chk.ob("O20.4", "self.plain read only in _diff", ok, reads[0] if reads else CR, f"{len(reads)} read(s)")
+    # file output == console output without colour codes, at the cell: every _diff case evaluated above (value tables of O20.3, rich and plain) gave the same text in both
+    # modes and no colour function in plain mode
+    if n_cases[0]:
+        chk.ob("O20.4", "in plain mode every evaluated difference cell is the text of the rich cell without a colour function", not plain_mismatch, sel_node,
+               f"{n_cases[0]} case(s)" if not plain_mismatch else "; ".join(plain_mismatch[:3])[:400], key=f"{_R}:ComparisonReporter._diff:plain-equals-rich-text")
     # every colour function assigned in the plain arm is identity — covered by the table; additionally no colour call outside _diff
     cols = [n for n in ast.walk(CR) if isinstance(n, ast.Attribute) and u(n).startswith("console.format.") and source.enclosing_func(n) is not diff and source.enclosing_func(n) is not None]
     chk.ob("O20.4", "no colour formatting outside _diff in the comparison reporter", not cols, cols[0] if cols else CR, "")
@@ -563,7 +724,7 @@ def run(chk):
     chk.ob("O20.4", "same formatter: rich -> console, plain -> file", ok, ws, "")
 
     # ---- O20.5 only common metrics --------------------------------------------------------------------------------------------------------------------------------
-    chk.rule("O20.5", "a line is emitted only when both values are not None (4-row table); tasks are the intersection; guards on scalar metric values use `is None`, never truthiness (0 is a value)", 6,
+    chk.rule("O20.5", "a line is emitted only when both values are not None (4-row table); tasks are the intersection; guards on scalar metric values use `is None`, never truthiness (0 is a value); optional members of a stored task result (throughput mean, processing time) are read with a default in both races", 6,
              "a metric missing in one race is printed (crash on None arithmetic), or a zero-valued metric present in both races is dropped / breaks swap symmetry")
     row_guard = guards(row[0]) if row else []
     for bn, cn in itertools.product([False, True], repeat=2):
@@ -639,6 +800,76 @@ def run(chk):
 
     chk.use(met_)
     record_key_agreement(chk, "O20.5", met_)
+    # optional members of a stored per-task result: a race written by an older version (or without that measurement) does not contain them, and the comparison must then skip
+    # the line, not abort with a KeyError. Every value the comparison selects from `<race>.metrics(task)` is evaluated on a record that has every member EXCEPT the optional
+    # ones: the read must evaluate (mandatory members may stay subscripts) and yield None / an empty mapping (no line) — in BOTH races; where the value is handed to a helper
+    # that dereferences it, None is not enough.
+    OPTIONAL = {("throughput", "mean"): "results written before Rally 2.0.4 contain no throughput mean (CHANGELOG #1146, #1160)",
+                ("processing_time",): "per-task processing time is newer than latency / service time and is only present in some stored results"}
+    if met_.methods(met_.cls("GlobalStats")).get("metrics") is None:
+        raise AnchorMissing("GlobalStats.metrics(task)")
+    n_opt = 0
+    opt_seen = {"B": set(), "C": set()}
+    for name, f in cm.items():
+        env = roles.env_for(f)
+        done = set()
+        for root in [n for n in walk_body(f) if isinstance(n, ast.Call) and isinstance(n.func, ast.Attribute) and n.func.attr == "metrics"]:
+            role = roles.deps(root.func.value, env)
+            if role not in ({"B"}, {"C"}):
+                continue
+            role = next(iter(role))
+            top = root
+            while True:
+                p_ = source.parent(top)
+                if (isinstance(p_, (ast.Subscript, ast.Attribute)) and p_.value is top) or (isinstance(p_, ast.Call) and p_.func is top) or isinstance(p_, (ast.BoolOp, ast.IfExp)):
+                    top = p_
+                else:
+                    break
+            if id(top) in done:
+                continue
+            done.add(id(top))
+            root_text = u(root)
+
+            class _Sub(ast.NodeTransformer):
+                def visit_Call(self, n):
+                    return ast.Name(id="__rec__", ctx=ast.Load()) if u(n) == root_text else self.generic_visit(n)
+
+            expr = _Sub().visit(source.clone(top))
+            touched = []
+            val, err = None, None
+            try:
+                val = _Interp().ev(expr, {"__rec__": _Rec(frozenset(OPTIONAL), touched=touched)})
+            except minieval.CannotEval as e:
+                err = str(e)
+            except (Unsupported, UnknownAtom, TypeError, ValueError, AttributeError, KeyError, IndexError, ArithmeticError, RecursionError) as e:
+                err = f"{type(e).__name__}: {e}" if not isinstance(e, KeyError) else f"KeyError {e}"
+            if not touched:
+                continue  # selects mandatory members only (or its keys are not constants)
+            if err is not None and "KeyError" not in err:
+                chk.unknown("O20.5", f"{name}: the read `{short(top, 70)}` of an optional member cannot be evaluated on a record without it: {err}", top)
+                continue
+            # is the value dereferenced by the helper it is handed to (directly or through the local it is assigned to)?
+            stmt = source.enclosing_stmt(top)
+            local = stmt.targets[0].id if isinstance(stmt, ast.Assign) and stmt.value is top and len(stmt.targets) == 1 and isinstance(stmt.targets[0], ast.Name) else None
+            needs_mapping = False
+            for c_ in walk_body(f):
+                if isinstance(c_, ast.Call) and isinstance(c_.func, ast.Attribute) and isinstance(c_.func.value, ast.Name) and c_.func.value.id == params_of(f)[0] and c_.func.attr in cm and cm[c_.func.attr] is not line:
+                    for p_, a_ in bind_args(c_, cm[c_.func.attr]).items():
+                        if (a_ is top or (local is not None and isinstance(a_, ast.Name) and a_.id == local)) and \
+                                any(isinstance(x, (ast.Attribute, ast.Subscript)) and isinstance(x.value, ast.Name) and x.value.id == p_ for x in ast.walk(cm[c_.func.attr])):
+                            needs_mapping = True
+            member = ".".join(touched[0])
+            opt_seen[role].add(touched[0])
+            n_opt += 1
+            empty = val is None or (isinstance(val, dict) and not isinstance(val, _Rec) and len(val) == 0)
+            ok = err is None and empty and (isinstance(val, dict) or not needs_mapping)
+            why = "" if ok else (f"`{short(top, 70)}` raises KeyError: the whole comparison aborts ('Cannot compare') instead of skipping the line" if err is not None else
+                                 (f"`{short(top, 70)}` yields {val!r} for a race without the member: a line would be built from a value the race does not contain" if not empty else
+                                  f"`{short(top, 70)}` yields None, but the helper it is handed to dereferences it"))
+            chk.ob("O20.5", f"{name}: optional member `{member}` of the {'baseline' if role == 'B' else 'contender'}'s task result is read with a default ({OPTIONAL[touched[0]]})", ok, top, why,
+                   key=f"{_R}:ComparisonReporter.{name}:optional-member:{role}:{member}")
+    chk.ob("O20.5", "optional task-result members are read from both races alike (throughput mean, processing time: one read per race)", n_opt >= 4 and opt_seen["B"] == opt_seen["C"] == set(OPTIONAL), rep,
+           f"{n_opt} read(s); baseline: {sorted('.'.join(p_) for p_ in opt_seen['B'])}; contender: {sorted('.'.join(p_) for p_ in opt_seen['C'])}", key=f"{_R}:ComparisonReporter:optional-members-symmetric")
     # scalar guards
     n_guard = 0
     for f, c in sites:
@@ -797,9 +1028,9 @@ VARIANTS = [
     V("contender median from baseline", "break", _R, '        c_median = contender_stats.metrics(task)["throughput"]["median"]', '        c_median = baseline_stats.metrics(task)["throughput"]["median"]', "O20.2"),
     V("GC helper reads baseline twice", "break", _R, '                getattr(contender_stats, f"{metric_prefix}_gc_time"),', '                getattr(baseline_stats, f"{metric_prefix}_gc_time"),', "O20.2"),
     V("baseline - contender", "break", _R, "            diff = formatter(contender - baseline)", "            diff = formatter(baseline - contender)", "O20.3"),
-    V("divide by contender", "break", _R, "            diff = _safe_divide(contender - baseline, baseline) * 100.0", "            diff = _safe_divide(contender - baseline, contender) * 100.0", "O20.3"),
+    V("divide by contender", "break", _R, "            diff = _safe_divide(contender - baseline, abs(baseline)) * 100.0", "            diff = _safe_divide(contender - baseline, abs(contender)) * 100.0", "O20.3"),
     V("green/red swapped in the decrease arm", "break", _R, "        else:\n            color_greater = console.format.red\n            color_smaller = console.format.green", "        else:\n            color_greater = console.format.green\n            color_smaller = console.format.red", "O20.3"),
-    V("> instead of >= on one side", "break", _R, "        if diff >= threshold:", "        if diff > threshold:", "O20.3"),
+    V("> instead of >= on one side", "break", _R, "        if printed > 0:", "        if printed >= 0:", "O20.3"),
     V("seed m1: neutral colour hoisted out of the plain arm", "break", _R, "            color_neutral = identity\n        elif treat_increase_as_improvement:", "            color_neutral = console.format.neutral\n        elif treat_increase_as_improvement:", "O20.3"),
     V("plain/rich swapped at the writer", "break", _R, "        self._write_report(metric_table_plain, metric_table_rich)", "        self._write_report(metric_table_rich, metric_table_plain)", "O20.4"),
     V("file gets the rich data", "break", _R, "            f.writelines(formatter(headers, data_plain))", "            f.writelines(formatter(headers, data_rich))", "O20.4"),
@@ -808,6 +1039,30 @@ VARIANTS = [
     V("line guard by truthiness", "break", _R, "        if baseline is not None and contender is not None:", "        if baseline and contender:", "O20.5"),
     # preserving
     V("locals renamed", "keep", _R, "b_median", "base_median", count=2),
-    V("strict mirrored thresholds", "keep", _R, "        if diff >= threshold:\n            return color_greater(f\"+{formatted}\")\n        elif diff <= -threshold:", "        if diff > threshold:\n            return color_greater(f\"+{formatted}\")\n        elif diff < -threshold:"),
+    V("strict mirrored thresholds", "keep", _R, "        if printed > 0:\n            return color_greater(f\"+{formatted}\")\n        elif printed < 0:", "        if printed >= 10**-precision:\n            return color_greater(f\"+{formatted}\")\n        elif printed <= -(10**-precision):"),
     V("De Morgan line guard", "keep", _R, "        if baseline is not None and contender is not None:", "        if not (baseline is None or contender is None):"),
+    # hunt F31 (aff9c7a): relative difference over the signed baseline
+    V("F31 reverted: relative difference divided by the signed baseline", "break", _R, "_safe_divide(contender - baseline, abs(baseline)) * 100.0", "_safe_divide(contender - baseline, baseline) * 100.0", "O20.3"),
+    V("F31 respelled: magnitude by conditional negation, no helper", "keep", _R, "            diff = _safe_divide(contender - baseline, abs(baseline)) * 100.0",
+      "            magnitude = -baseline if baseline < 0 else baseline\n            diff = ((contender - baseline) / magnitude if magnitude != 0 else 0) * 100.0"),
+    V("F31 respelled: sign restored after dividing by the signed baseline", "keep", _R, "            diff = _safe_divide(contender - baseline, abs(baseline)) * 100.0",
+      "            diff = _safe_divide(contender - baseline, baseline) * (100.0 if baseline > 0 else -100.0) + 0.0"),
+    # hunt F33 (9732d2d): neutral band decided on the unrounded value
+    V("F33 reverted: neutral band on the unrounded difference", "break", _R, "        if printed > 0:\n            return color_greater(f\"+{formatted}\")\n        elif printed < 0:",
+      "        if diff >= 10**-precision:\n            return color_greater(f\"+{formatted}\")\n        elif diff <= -(10**-precision):", "O20.3"),
+    V("F33 respelled: printed value parsed from the formatted text", "keep", _R, "        printed = float(f\"{diff:.{precision}f}\")", "        printed = float(formatted.rstrip(\"%\"))"),
+    V("F33 respelled: zero test on the digits of the text", "keep", _R, "        if printed > 0:\n            return color_greater(f\"+{formatted}\")\n        elif printed < 0:",
+      "        if printed == 0:\n            return color_neutral(formatted)\n        elif diff > 0:\n            return color_greater(f\"+{formatted}\")\n        elif diff < 0:"),
+    # hunt F32 (7f539ff): optional members of a task result read by subscript
+    V("F32 reverted: baseline throughput mean by subscript", "break", _R, '        b_mean = baseline_stats.metrics(task)["throughput"].get("mean")', '        b_mean = baseline_stats.metrics(task)["throughput"]["mean"]', "O20.5"),
+    V("F32 reverted: contender processing time by subscript", "break", _R, '        contender_processing_time = contender_stats.metrics(task).get("processing_time") or {}', '        contender_processing_time = contender_stats.metrics(task)["processing_time"]', "O20.5"),
+    V("F32 half repaired: processing time read with .get() but None handed to the percentile helper", "break", _R, '        baseline_processing_time = baseline_stats.metrics(task).get("processing_time") or {}', '        baseline_processing_time = baseline_stats.metrics(task).get("processing_time")', "O20.5"),
+    [V("F32 respelled: explicit defaults (both races)", "keep", _R, '        c_mean = contender_stats.metrics(task)["throughput"].get("mean")', '        c_mean = contender_stats.metrics(task)["throughput"].get("mean", None)'),
+     V("", "keep", _R, '        b_mean = baseline_stats.metrics(task)["throughput"].get("mean")', '        b_mean = baseline_stats.metrics(task)["throughput"].get("mean", None)')],
+    [V("F32 respelled: membership test instead of .get() (both races)", "keep", _R, '        baseline_processing_time = baseline_stats.metrics(task).get("processing_time") or {}',
+       '        baseline_processing_time = (baseline_stats.metrics(task)["processing_time"] if "processing_time" in baseline_stats.metrics(task) else None) or {}'),
+     V("", "keep", _R, '        contender_processing_time = contender_stats.metrics(task).get("processing_time") or {}',
+       '        contender_processing_time = (contender_stats.metrics(task)["processing_time"] if "processing_time" in contender_stats.metrics(task) else None) or {}')],
+    # benign x7: the divisor is a magnitude since F31, `d > 0` and `d` decide alike
+    V("zero-safe division tests d > 0 (divisor is |baseline|)", "keep", _R, "            return n / d if d else 0", "            return n / d if d > 0 else 0"),
 ]
